@@ -1051,8 +1051,10 @@ impl Tuple {
             bitmap_size,
         )?;
 
-        // Copy existing deltas
+        // Copy existing deltas. Readers align the cursor before every delta header, and the
+        // block was written relative to an aligned start, so it must start aligned here too.
         if existing_deltas_size > 0 {
+            let cursor = DeltaHeader::aligned_offset(cursor);
             let existing_deltas = &self.data.effective_data()[existing_deltas_start..];
             buffer[cursor..cursor + existing_deltas_size].copy_from_slice(existing_deltas);
         }
@@ -1170,8 +1172,11 @@ impl Tuple {
             }
         }
 
-        // Existing deltas
-        size += existing_deltas_size;
+        // Existing deltas (they start at the next aligned offset)
+        if existing_deltas_size > 0 {
+            size = DeltaHeader::aligned_offset(size);
+            size += existing_deltas_size;
+        }
 
         size
     }
